@@ -4,13 +4,13 @@
 package e1
 
 import (
-	"sort"
 	"bufio"
 	"bytes"
 	"encoding/json"
 	"fmt"
 	"os"
 	"os/exec"
+	"sort"
 	"strconv"
 	"sync"
 	"time"
@@ -52,6 +52,13 @@ type Result struct {
 	WallS      float64        `json:"wall_s"`
 	Sample     any            `json:"sample,omitempty"`
 	PerBound   []string       `json:"per_bound,omitempty"`
+	// unbounded partial-order-reduced phase
+	DporRan      bool   `json:"dpor_ran,omitempty"`
+	DporComplete bool   `json:"dpor_complete,omitempty"`
+	DporExecs    int64  `json:"dpor_executions,omitempty"`
+	DporBlocked  int64  `json:"dpor_sleep_blocked,omitempty"`
+	DporRaces    int64  `json:"dpor_races,omitempty"`
+	DporNote     string `json:"dpor_note,omitempty"`
 }
 
 // Scenario is one closed harness: Body is executed once per schedule and must rebuild its state from
@@ -74,6 +81,10 @@ type Budget struct {
 	// best-effort bounds): keeps "required bound cut" from depending on machine load
 	RequiredPerScen time.Duration
 	MaxExecs        int64
+	// DPOR, when > 0, is the wall budget of a final phase without preemption bound: dynamic
+	// partial-order reduction with sleep sets (vrt/dpor.go) — at least one interleaving of every
+	// Mazurkiewicz trace of the scenario. Completing it decides the scenario for EVERY interleaving.
+	DPOR time.Duration
 }
 
 // Explore runs one scenario under iterative preemption bounding.
@@ -152,11 +163,128 @@ func Explore(i int, sc Scenario, b Budget) *Result {
 			res.BoundDone = bound
 		}
 	}
+	if b.DPOR > 0 && res.Capped == "" && len(res.Viols) == 0 {
+		runDPOR(i, sc, b, res, body, check, nt, sigSeen)
+	}
 	for k := range nt {
 		res.Nontrivial = append(res.Nontrivial, k)
 	}
 	res.WallS = time.Since(t0).Seconds()
 	return res
+}
+
+func runDPOR(i int, sc Scenario, b Budget, res *Result, body func(), check func(x *vrt.Execution) (string, string, string, uint64), nt map[uint64]struct{}, sigSeen map[string]int) {
+	tb := time.Now()
+	e := &vrt.DPORExplorer{Deadline: tb.Add(b.DPOR), MaxExecs: b.MaxExecs}
+	finals := map[uint64]struct{}{}
+	e.OnExec = func(x *vrt.Execution) bool {
+		finals[x.FinalKey] = struct{}{}
+		sig, desc, outcome, key := check(x)
+		if x.Horizon {
+			outcome = "HORIZON " + outcome
+			sig = ""
+		}
+		res.Outcomes[outcome]++
+		if key != 0 {
+			nt[key] = struct{}{}
+		}
+		if sig != "" {
+			sigSeen[sig]++
+			if sigSeen[sig] <= 1 {
+				v := Viol{Signature: sig, Desc: desc, Scenario: sc.Params, ScenarioI: i, Schedule: x.Choices()}
+				if b.Elide {
+					v.Elide, v.Shared = true, vrt.SharedPrefix(x.SharedAtStart)
+				}
+				res.Viols = append(res.Viols, v)
+			}
+			res.KnownSeen[sig]++
+		}
+		return true
+	}
+	e.Explore(body)
+	res.DporRan = true
+	res.DporComplete = e.Capped == ""
+	res.DporExecs, res.DporBlocked, res.DporRaces = e.Execs, e.Blocked, e.Races
+	res.Execs += e.Execs
+	res.Points += e.Points
+	res.Horizons += e.Horizons
+	if e.MaxPoints > res.MaxPoints {
+		res.MaxPoints = e.MaxPoints
+	}
+	res.DporNote = fmt.Sprintf("dpor (no preemption bound): complete=%v execs=%d sleep_blocked=%d races=%d distinct_final_states=%d restarts=%d wall=%.1fs capped=%q", e.Capped == "", e.Execs, e.Blocked, e.Races, len(finals), e.Restarts, time.Since(tb).Seconds(), e.Capped)
+	res.PerBound = append(res.PerBound, res.DporNote)
+	if e.Capped == "" {
+		res.BoundDone = 99
+	}
+}
+
+// CrossValidate explores one scenario twice without a preemption bound — the state-key search and the
+// partial-order-reduced search — and compares the sets of final states and oracle outcomes reached.
+// Used by the self-tests of the engine (a reduced search that loses a behaviour shows up here).
+func CrossValidate(sc Scenario, elide bool, budget time.Duration) (ok bool, note string) {
+	body, check := sc.Make()
+	vrt.LocalElision = elide
+	vrt.ResetShared()
+	if err := vrt.CheckDeterminism(nil, body); err != nil {
+		return false, "nondeterministic replay: " + err.Error()
+	}
+	fullF, fullO := map[uint64]struct{}{}, map[string]struct{}{}
+	t0 := time.Now()
+	ex := &vrt.Explorer{Bound: -1, Prune: true, Deadline: t0.Add(budget)}
+	fullSched := map[uint64][]int{}
+	ex.OnExec = func(x *vrt.Execution) bool {
+		_, _, out, _ := check(x)
+		if _, ok := fullSched[x.FinalKey]; !ok {
+			fullSched[x.FinalKey] = x.Choices()
+		}
+		fullF[x.FinalKey] = struct{}{}
+		fullO[out] = struct{}{}
+		return true
+	}
+	ex.Explore(body)
+	if ex.Capped != "" {
+		return true, fmt.Sprintf("skipped: full search capped (%s) after %d execs", ex.Capped, ex.Execs)
+	}
+	w1 := time.Since(t0)
+	dF, dO := map[uint64]struct{}{}, map[string]struct{}{}
+	t1 := time.Now()
+	de := &vrt.DPORExplorer{Deadline: t1.Add(budget)}
+	de.OnExec = func(x *vrt.Execution) bool {
+		_, _, out, _ := check(x)
+		dF[x.FinalKey] = struct{}{}
+		dO[out] = struct{}{}
+		return true
+	}
+	de.Explore(body)
+	if de.Capped != "" {
+		return true, fmt.Sprintf("skipped: dpor capped (%s) after %d execs (full: %d execs, %d finals)", de.Capped, de.Execs, ex.Execs, len(fullF))
+	}
+	missF, missO, extraF := 0, 0, 0
+	for k := range fullF {
+		if _, ok := dF[k]; !ok {
+			missF++
+			if missF == 1 && os.Getenv("VERIF_XVAL_DEBUG") != "" {
+				x := vrt.Run(fullSched[k], vrt.RunOpts{Verbose: true}, body)
+				fmt.Println("MISSING final state reached by schedule", fullSched[k])
+				for _, l := range x.Trace {
+					fmt.Println("   ", l)
+				}
+			}
+		}
+	}
+	for k := range dF {
+		if _, ok := fullF[k]; !ok {
+			extraF++
+		}
+	}
+	for k := range fullO {
+		if _, ok := dO[k]; !ok {
+			missO++
+		}
+	}
+	note = fmt.Sprintf("full: execs=%d pruned=%d finals=%d outcomes=%d wall=%.1fs | dpor: execs=%d blocked=%d races=%d finals=%d outcomes=%d wall=%.1fs | missing finals=%d outcomes=%d, extra finals=%d",
+		ex.Execs, ex.Pruned, len(fullF), len(fullO), w1.Seconds(), de.Execs, de.Blocked, de.Races, len(dF), len(dO), time.Since(t1).Seconds(), missF, missO, extraF)
+	return missF == 0 && missO == 0 && extraF == 0, note
 }
 
 // RunSharded explores every scenario in its own worker process (GOMAXPROCS=1, one scheduler per
@@ -326,7 +454,6 @@ func Linearizable(h []Op, m Model) bool {
 	return rec(0, m.Init)
 }
 
-
 // outcomeExamples lists up to n distinct outcomes (with their execution counts) for the evidence file.
 func outcomeExamples(m map[string]int, n int) []string {
 	var ks []string
@@ -344,4 +471,46 @@ func outcomeExamples(m map[string]int, n int) []string {
 		ks[i] = fmt.Sprintf("%dx %s", m[ks[i]], k)
 	}
 	return ks
+}
+
+// XVal is the engine self-test entry of a harness binary (VERIF_XVAL=1): every scenario (or the one named
+// by VERIF_SHARD) is cross-validated; exit code 0 iff no reduced search lost a final state or outcome.
+func XVal(scs []Scenario, elide bool, budget time.Duration) int {
+	if s := os.Getenv("VERIF_SHARD"); s != "" {
+		i, _ := strconv.Atoi(s)
+		ok, note := CrossValidate(scs[i], elide, budget)
+		fmt.Printf("XVAL %d ok=%v %s :: %s\n", i, ok, scs[i].Name, note)
+		if !ok {
+			return 1
+		}
+		return 0
+	}
+	exe, _ := os.Executable()
+	var mu sync.Mutex
+	bad := 0
+	var wg sync.WaitGroup
+	sem := make(chan struct{}, 14)
+	for i := range scs {
+		wg.Add(1)
+		go func(i int) {
+			defer wg.Done()
+			sem <- struct{}{}
+			defer func() { <-sem }()
+			cmd := exec.Command(exe, os.Args[1:]...)
+			cmd.Env = append(os.Environ(), "VERIF_SHARD="+strconv.Itoa(i), "GOMAXPROCS=1")
+			out, err := cmd.CombinedOutput()
+			mu.Lock()
+			defer mu.Unlock()
+			fmt.Print(string(out))
+			if err != nil {
+				bad++
+			}
+		}(i)
+	}
+	wg.Wait()
+	fmt.Printf("XVAL-SUMMARY scenarios=%d failed=%d\n", len(scs), bad)
+	if bad > 0 {
+		return 1
+	}
+	return 0
 }
